@@ -37,6 +37,7 @@ def plan(tier, seed):
     cases += rowlib.gen_cases(G.dot_ring_closures(rng, 24 if q else 200), 8, CFGS, "dotring")
     cases += rowlib.gen_cases(G.spectator_laden(rng, 24 if q else 200), 8, CFGS, "spect")
     cases += rowlib.gen_cases(G.dative(rng, 40 if q else 400), 8, CFGS, "dative")
+    cases += rowlib.gen_cases(G.completion_prefix_collisions(rng, 48 if q else 400), 8, CFGS, "prefixcoll")
     # large batches: many completed rows, rows rewritten by reagent templates at positions >= 10 (>= 100)
     big = G.redox_family(rng, 60 if q else 600) + G.deletions(rng, 40 if q else 400) + G.additions(rng, 20 if q else 200)
     rng.shuffle(big)
